@@ -12,10 +12,14 @@ EXPLANATION = (
     "wrapping_sub, the circular comparators mod_lt/leq/gt/geq/mod_bounded, ==/!=, moves, header-builder arguments and "
     "formatting; any ordinary ordering or arithmetic operator (MIR Lt/Le/Gt/Ge/Add/Sub/Mul/Div/Rem, PartialOrd/Ord "
     "methods, checked/saturating/overflowing arithmetic) applied to one is a violation. Shifting an ISN then commutes "
-    "with every operation applied to sequence values. Not decided: that the five comparator primitives equal the "
-    "mathematical circular order (they are the trusted base) and trace equality across ISN pairs.")
-ASSUMPTIONS = ["mod_lt, mod_leq, mod_gt, mod_geq, mod_bounded (modular_cmp.rs) implement the circular order for distances < 2^31"]
-TRUSTED = ["elvis_core::protocols::tcp::tcb::modular_cmp (comparison primitives)"]
+    "with every operation applied to sequence values. (Q-PRIM) The five comparator primitives themselves are decided on "
+    "the formula extracted from their MIR: mod_lt/leq/gt/geq depend on their operands only through a - b and equal the "
+    "circular order on every region delimited by the constants they compare against (the band of width 2 at distance "
+    "2^31 is a don't-care); mod_bounded equals, on all 13 weak orderings of its three offset-adjusted operands and all "
+    "four ModCmp pairs, the strict cyclic order, which is rotation invariant. Not decided: trace equality across ISN "
+    "pairs as such (the discipline is the structural reason for it); sequence distances of 2^31 and more.")
+ASSUMPTIONS = ["u32::wrapping_add / wrapping_sub are addition and subtraction modulo 2^32"]
+TRUSTED = []
 TECHNIQUE = "static analysis: interprocedural unit/dimension typing of sequence-number values over rustc MIR"
 
 SEQ_FIELDS = {
@@ -156,6 +160,8 @@ def _upvar_names(cb):
 
 def run(ctx):
     prog = ctx.prog()
+    from . import seqprims
+    seqprims.check_prims(ctx, "Q-PRIM")
     ty = Typing(prog)
     circ = 0
     cmpc = 0
